@@ -152,7 +152,7 @@ var pool chan *pooled
 func makePool(n int) error {
 	pool = make(chan *pooled, n)
 	for i := 0; i < n; i++ {
-		e := core.NewEng("d")
+		e := core.NewEng("c38db") // unique name: a foreign server sharing the port rejects the connect
 		srv, err := e.StartServer()
 		if err != nil {
 			return err
